@@ -40,6 +40,8 @@ type ExecResult struct {
 type Stats struct {
 	Scenario      string         `json:"scenario"`
 	Bound         int            `json:"bound"`
+	// BoundCompleted is the largest deviation bound whose exploration finished.
+	BoundCompleted int `json:"bound_completed"`
 	Executions    int            `json:"executions"`
 	States        int            `json:"states"`
 	Transitions   int            `json:"transitions"`
@@ -119,8 +121,26 @@ func (e *Explorer) Explore() {
 	if e.Terminal == nil {
 		e.Terminal = map[string]bool{}
 	}
-	e.explore(nil, 0)
-	e.Stats.States = len(e.visited)
+	// Iterate the deviation bound 0, 1, …, Bound: every layer is completed before
+	// the next one starts, so under a time cap the fully covered bound is known
+	// (BoundCompleted) and the first counterexample has the fewest deviations.
+	full := e.Bound
+	states := map[[16]byte]bool{}
+	e.Stats.BoundCompleted = -1
+	for b := 0; b <= full && !e.stop; b++ {
+		e.Bound = b
+		e.visited = map[[16]byte]int{}
+		e.topOrd = 0
+		e.explore(nil, 0)
+		for k := range e.visited {
+			states[k] = true
+		}
+		if !e.stop {
+			e.Stats.BoundCompleted = b
+		}
+	}
+	e.Bound = full
+	e.Stats.States = len(states)
 	e.Stats.Outcomes = len(e.Stats.outcomes)
 }
 
